@@ -46,6 +46,10 @@ func verifErrClass(err error) int {
 	return 1
 }
 
+// verifHeld tells whether the caller is inside the critical section that protects the line table (1) or not (0).
+// The line table has no lock of its own: accesses are ordered only by the channels between the goroutines.
+func verifHeld(lc *lineCalc) int { return 0 }
+
 func verifB(b bool) int {
 	if b {
 		return 1
